@@ -149,9 +149,33 @@ def random_jobs(rng, n, sizes, events=True):
                 k = ("int", 0)
             mx, b2, mn = bounds(metric, k)
         nt = sum(map(sum, mask))
-        jobs.append({"H": H, "W": W, "vals": vals, "xs": xs, "ys": ys, "metric": metric, "max": mx,
-                     "bound2": b2, "maxn": mn, "targets": targets, "events": events,
-                     "exact": 1 if nt == 1 else 0, "tag": "random"})
+        job = {"H": H, "W": W, "vals": vals, "xs": xs, "ys": ys, "metric": metric, "max": mx,
+               "bound2": b2, "maxn": mn, "targets": targets, "events": events,
+               "exact": 1 if nt == 1 else 0, "tag": "random"}
+        u = rng.random()
+        if u < 0.25:
+            # repeated target values (realistic rasters): allocation is judged by value
+            pal = rng.choice([[1, 2], [1, 2, 3], [5]])
+            if explicit:
+                others = [7, 8, 9, 0]
+                job["vals"] = [[rng.choice(pal) if mask[r][c] else rng.choice(others) for c in range(W)] for r in range(H)]
+                job["targets"] = sorted(set(v for r in range(H) for c in range(W) if mask[r][c] for v in [job["vals"][r][c]]))
+            else:
+                job["vals"] = [[rng.choice(pal) * mask[r][c] for c in range(W)] for r in range(H)]
+            job["tag"] = "random_repeated_values"
+        elif u < 0.40 and explicit:
+            # negative / fractional / zero target values
+            tv = rng.choice([[-1.5], [0], [-2, 0.5], [0, 3]])
+            job["vals"] = [[rng.choice(tv) if mask[r][c] else rng.choice([7, 8, -9, 2.25]) for c in range(W)]
+                           for r in range(H)]
+            job["targets"] = tv
+            job["tag"] = "random_odd_target_values"
+        if rng.random() < 0.25 and all(not isinstance(v, str) and float(v) == int(v) for row in job["vals"] for v in row):
+            job["dtype"] = rng.choice(["int32", "int64", "uint8", "int16"]) if all(
+                v >= 0 for row in job["vals"] for v in row) else rng.choice(["int32", "int64"])
+        if rng.random() < 0.2:
+            job["dims"] = rng.choice([["lat", "lon"], ["row", "col"], ["northing", "easting"]])
+        jobs.append(job)
     return jobs
 
 
@@ -193,6 +217,17 @@ def handle(ctx, cases, verdicts, kind):
                           "%s %dx%d metric=%s" % (case.get("tag"), case["H"], case["W"], case["metric"]))
         if dr and dr.startswith("drift"):
             ctx.report_drift("step model vs code: %s on %s %s" % (dr, case.get("tag"), case["img"]))
+
+
+def judge_and_handle(ctx, cases, name, kind, **kw):
+    good = [c for c in cases if "error" not in c]
+    for c in cases:
+        if "error" in c:
+            ctx.evaluations += 1
+            ctx.violation("proximity:call-raised", "call_raised", c["job"], c["error"])
+    v = ctx.judge("Proximity_Trace", [strip(c) for c in good], name=name, stateful=True, **kw)
+    handle(ctx, good, v, kind)
+    return v
 
 
 def strip(case):
@@ -239,9 +274,7 @@ def run(ctx):
         jobs += layout_jobs(cfg)
     jobs += layout_jobs(cfgs[0], explicit=True, tag="explicit_targets")
     cases = core.run_jobs("prox_worker", jobs, env={"NUMBA_DISABLE_JIT": "1"})
-    v = ctx.judge("Proximity_Trace", [strip(c) for c in cases], name="replay_layouts", stateful=True,
-                  workers=4, parallel=4)
-    handle(ctx, cases, v, "R")
+    judge_and_handle(ctx, cases, "replay_layouts", "R", workers=4, parallel=4)
     for c in cases[:2000:700]:
         ctx.sample({"kind": "replay", "img": c["img"], "metric": c["metric"], "maxn": c["maxn"],
                     "prox2": c.get("prox"), "alloc": c.get("alloc"), "events": len(c["events"])})
@@ -250,9 +283,7 @@ def run(ctx):
     n = ctx.pick(150, 3000)
     jobs = random_jobs(rng, n, [(4, 5), (5, 5), (6, 4), (5, 7), (7, 6), (8, 8)]) + world_jobs(rng, ctx.pick(24, 300))
     cases = core.run_jobs("prox_worker", jobs, env={"NUMBA_DISABLE_JIT": "1"})
-    v = ctx.judge("Proximity_Trace", [strip(c) for c in cases], name="random_traces", stateful=True,
-                  workers=4, parallel=4)
-    handle(ctx, cases, v, "T")
+    judge_and_handle(ctx, cases, "random_traces", "T", workers=4, parallel=4)
     for c in cases[:3]:
         ctx.sample({"kind": "trace", "img": c["img"], "xs": c["xs"], "ys": c["ys"], "metric": c["metric"],
                     "maxn": c["maxn"], "prox2": c.get("prox"), "events": len(c["events"])})
@@ -261,9 +292,7 @@ def run(ctx):
     n = ctx.pick(10, 120)
     jobs = random_jobs(rng, n, [(3, 4), (4, 4), (5, 6)], events=False)
     cases = core.run_jobs("prox_worker", jobs, nproc=16)
-    v = ctx.judge("Proximity_Trace", [strip(c) for c in cases], name="compiled_sample", stateful=True,
-                  workers=2)
-    handle(ctx, cases, v, "compiled")
+    judge_and_handle(ctx, cases, "compiled_sample", "compiled", workers=2)
 
 
 def replay(ctx, rec):
@@ -271,8 +300,7 @@ def replay(ctx, rec):
     job = rec["case"]["job"]
     job["events"] = True
     cases = core.run_jobs("prox_worker", [job], env={"NUMBA_DISABLE_JIT": "1"})
-    v = ctx.judge("Proximity_Trace", [strip(c) for c in cases], name="replay", stateful=True)
-    handle(ctx, cases, v, "replay")
+    v = judge_and_handle(ctx, cases, "replay", "replay")
     ctx.sample({"replayed": rec.get("clause"), "verdict": v.get(0)})
 
 
